@@ -87,7 +87,7 @@ let () =
       let head = String.split_on_char ':' (String.sub line 0 p) in
       let body = String.sub line (p+1) (String.length line - p - 1) in
       let nth l i d = match List.nth_opt l i with Some x -> x | None -> d in
-      if List.hd head = "P" || (List.hd head = "F" && nth head 1 "0" <> "0") then
+      if (List.hd head).[0] = 'K' || List.hd head = "P" || (List.hd head = "F" && nth head 1 "0" <> "0") then
         Printf.printf "%d oracle-only\n" k   (* not modelled: the harness evaluates the end-to-end oracle only *)
       else
       let m = match List.hd head with
